@@ -28,7 +28,8 @@ EXTENDS Integers, Sequences, FiniteSets, TLC
 El(k, n) == [k |-> k, n |-> n, sub |-> <<>>]
 Inc(sub) == [k |-> "include", n |-> 0, sub |-> sub]
 
-Phys(el) == CASE el.k \in {"plain", "lcomment", "define", "include"} -> 1
+Phys(el) == CASE el.k \in {"plain", "lcomment", "define", "include", "undef", "undefmissing"} -> 1
+              [] el.k = "else" -> el.n + 4
               [] el.k = "bcomment" -> el.n
               [] el.k \in {"definecont", "textcont"} -> el.n + 1
               [] el.k \in {"inactive", "active"} -> el.n + 2
@@ -107,6 +108,9 @@ ElText(el, nl, incname) ==
       [] el.k = "textcont" -> "vd__t = 1 \\" \o nl \o Rep(" + 2 \\" \o nl, el.n - 1) \o " + 3;" \o nl
       [] el.k = "inactive" -> "#ifdef VD_UNDEFINED" \o nl \o Rep("vd__dead = 1 ) ;" \o nl, el.n) \o "#endif" \o nl
       [] el.k = "active" -> "#ifndef VD_UNDEFINED" \o nl \o Rep("vd__p = 1;" \o nl, el.n) \o "#endif" \o nl
+      [] el.k = "undef" -> "#undef VD_A" \o nl                   \* defined or not, depending on what precedes
+      [] el.k = "undefmissing" -> "#undef VD_NEVER" \o nl        \* never defined: a warning, and still one line
+      [] el.k = "else" -> "#ifdef VD_UNDEFINED" \o nl \o Rep("vd__dead = 1 ) ;" \o nl, el.n) \o "#else" \o nl \o "vd__p = 1;" \o nl \o "#endif" \o nl
       [] el.k = "include" -> "#include \"" \o incname \o "\"" \o nl
 
 \* files of a layout: [text of this file, files (sequence of [name, text]) of its includes, nf]
